@@ -1,6 +1,6 @@
 /-
 C04: non-reversal samples do not change what the FKM-nonlinear HCM detector records
-(`twoPass` on one-point load sequences).
+(`twoPassR` on one-point load sequences).
 
 Proof idea (helpers in `Proofs/Lemmas/HCMInsert.lean`):
 * Part H – for a one-point sequence the HCM loop only sees the VALUES of the turning points that
@@ -20,21 +20,21 @@ open HCM Rainflow
 namespace C04
 open HCM.Insert
 
-/-- the records of `twoPass` on a one-point sequence are those of the HCM loop on the fed values -/
+/-- the records of `twoPassR` on a one-point sequence are those of the HCM loop on the fed values -/
 theorem twoPass_recs (law : Law) (s : List Int) (hs : s ≠ []) :
-    (twoPass law (one s)).recs =
+    (twoPassR law (one s)).recs =
       (feed law (feed law {} 1 (one (fedI (trimI s)).1)) 1 (one (fedI (trimI s)).2)).recs := by
-  have hc : (twoPass law (one s)).recs = (core (twoPass law (one s))).recs := rfl
+  have hc : (twoPassR law (one s)).recs = (core (twoPassR law (one s))).recs := rfl
   rw [hc, twoPass_one law s (trimI_ne_nil s hs)]
 
 theorem recs_of_fed (law : Law) (s s0 : List Int) (hs : s ≠ []) (hs0 : s0 ≠ [])
     (h : fedI (trimI s) = fedI (trimI s0)) :
-    (twoPass law (one s)).recs = (twoPass law (one s0)).recs := by
+    (twoPassR law (one s)).recs = (twoPassR law (one s0)).recs := by
   rw [twoPass_recs law s hs, twoPass_recs law s0 hs0, h]
 
 /-- insertion of a repetition or of a strictly intermediate value in front of a non-empty rest -/
 theorem recs_of_ins (law : Law) (A B : List Int) (v : Int) (h : InsOK A v B) (hB : B ≠ []) :
-    (twoPass law (one (A ++ v :: B))).recs = (twoPass law (one (A ++ B))).recs := by
+    (twoPassR law (one (A ++ v :: B))).recs = (twoPassR law (one (A ++ B))).recs := by
   apply recs_of_fed law _ _ (by simp) (by simp [hB])
   rcases trim_ins A B v h hB with h1 | ⟨B1, hB1, h1, h2, h3⟩
   · rw [h1]
@@ -43,7 +43,7 @@ theorem recs_of_ins (law : Law) (A B : List Int) (v : Int) (h : InsOK A v B) (hB
 /-- a non-reversal sample at the end of a non-constant sequence is trimmed away -/
 theorem recs_of_append (law : Law) (s : List Int) (v : Int) (hs : s ≠ [])
     (h : idxf (s ++ [v]) = idxf s) (hne : idxf s ≠ []) :
-    (twoPass law (one (s ++ [v]))).recs = (twoPass law (one s)).recs := by
+    (twoPassR law (one (s ++ [v]))).recs = (twoPassR law (one s)).recs := by
   apply recs_of_fed law _ _ (by simp) hs
   rw [trim_append_of_idxf s v h hne]
 
@@ -66,7 +66,7 @@ theorem idxf_ne_nil' (s : List Int) (h : ∃ p ∈ s, ∃ q ∈ s, p ≠ q) : id
 /-- A sample lying (weakly) between its neighbours changes nothing that is recorded. -/
 theorem hcm_insert_nonreversal_interior (law : Law) (pre post : List Int) (x y v : Int)
     (hv : (x ≤ v ∧ v ≤ y) ∨ (y ≤ v ∧ v ≤ x)) :
-    (twoPass law (one (pre ++ x :: v :: y :: post))).recs = (twoPass law (one (pre ++ x :: y :: post))).recs := by
+    (twoPassR law (one (pre ++ x :: v :: y :: post))).recs = (twoPassR law (one (pre ++ x :: y :: post))).recs := by
   have e1 : pre ++ x :: v :: y :: post = (pre ++ [x]) ++ v :: (y :: post) := by simp
   have e0 : pre ++ x :: y :: post = (pre ++ [x]) ++ (y :: post) := by simp
   have hl : (pre ++ [x]).getLast? = some x := by simp
@@ -98,7 +98,7 @@ at the junction of the passes; a repetition of the first sample would itself be 
 nothing that is recorded. -/
 theorem hcm_append_nonreversal (law : Law) (s : List Int) (a z v : Int) (hs : s.head? = some a) (hz : s.getLast? = some z)
     (hv : (a ≤ v ∧ v ≤ z) ∨ (z ≤ v ∧ v ≤ a)) (hne : v ≠ a ∨ v = z) :
-    (twoPass law (one (s ++ [v]))).recs = (twoPass law (one s)).recs := by
+    (twoPassR law (one (s ++ [v]))).recs = (twoPassR law (one s)).recs := by
   cases s with
   | nil => simp at hs
   | cons a' s' =>
@@ -149,16 +149,16 @@ end C04
 /-! ### non-vacuity / sanity instances -/
 
 -- interior insertion: the three kinds (repetition of `x`, of `y`, strictly between)
-example : (twoPass lawSat (C04.one ([0, 100] ++ 300 :: 200 :: 100 :: [-200, 50]))).recs =
-    (twoPass lawSat (C04.one ([0, 100] ++ 300 :: 100 :: [-200, 50]))).recs :=
+example : (twoPassR lawSat (C04.one ([0, 100] ++ 300 :: 200 :: 100 :: [-200, 50]))).recs =
+    (twoPassR lawSat (C04.one ([0, 100] ++ 300 :: 100 :: [-200, 50]))).recs :=
   C04.hcm_insert_nonreversal_interior lawSat [0, 100] [-200, 50] 300 100 200 (by decide)
-example : (twoPass lawLinear (C04.one ([0, 100] ++ 300 :: 200 :: 100 :: [-200, 50]))).recs ≠ [] := by
+example : (twoPassR lawLinear (C04.one ([0, 100] ++ 300 :: 200 :: 100 :: [-200, 50]))).recs ≠ [] := by
   decide +kernel
 -- append: strictly between last (50) and first (200) sample; and a repetition of the last sample
-example : (twoPass lawSat (C04.one ([200, -100, 300, 50] ++ [100]))).recs =
-    (twoPass lawSat (C04.one [200, -100, 300, 50])).recs :=
+example : (twoPassR lawSat (C04.one ([200, -100, 300, 50] ++ [100]))).recs =
+    (twoPassR lawSat (C04.one [200, -100, 300, 50])).recs :=
   C04.hcm_append_nonreversal lawSat [200, -100, 300, 50] 200 50 100 rfl rfl (by decide) (by decide)
-example : (twoPass lawLinear (C04.one ([200, -100, 300, 50] ++ [100]))).recs ≠ [] := by decide +kernel
+example : (twoPassR lawLinear (C04.one ([200, -100, 300, 50] ++ [100]))).recs ≠ [] := by decide +kernel
 -- the key index lemma on an example
 example : findTurns ([1, 3] ++ 2 :: [1, 4, 0]) =
     (findTurns ([1, 3] ++ [1, 4, 0])).map (HCM.Insert.bump 2) := by decide
